@@ -78,7 +78,8 @@ class NewtonController(StepController):
         tau_vals = self.tau_vals(initial_iterate, rho)
 
         if active_set_type == ActiveSetType.SmallestActiveSet:
-            if (tau_vals <= 0).all():
+            # (also covers non-finite entries, for which no comparison holds)
+            if not (tau_vals > 0).any():
                 return 1.0
 
             min_tau = np.min(tau_vals[tau_vals > 0])
